@@ -84,7 +84,7 @@ int main() {
 
 def build(pool=None, tag='core', shards=16, force=False):
     pool = pool if pool is not None else nopgen.core_pool()
-    srcs = [os.path.join(VERIF, 'harness', 'glue.h'), os.path.join(VERIF, 'tools', 'nopgen.py'),
+    srcs = [os.path.join(VERIF, 'harness', 'glue.h'), os.path.join(VERIF, 'harness', 'prim.cpp'), os.path.join(VERIF, 'tools', 'nopgen.py'),
             os.path.abspath(__file__), os.path.join(VERIF, 'tools', 'common.py')]
     key = sha_files(srcs + tree_files(os.path.join(REPO, 'include')), extra=tag + '|'.join(nopgen.desc(t) for t in pool))
     out = os.path.join(BUILD, 'h-%s-%s' % (tag, key))
@@ -127,14 +127,20 @@ def build(pool=None, tag='core', shards=16, force=False):
         f.write(MAIN % {'decls': '\n'.join('void RegisterShard%d(vh::Registry&);\nvoid FungRows%d(std::map<std::string, std::string>&);' % (k, k) for k in range(nsh)),
                         'calls': '\n'.join('  RegisterShard%d(reg);\n  FungRows%d(fung);' % (k, k) for k in range(nsh))})
     files.append(os.path.join(out, 'main.cpp'))
+    prim_src = os.path.join(VERIF, 'harness', 'prim.cpp')
 
     def cc(p):
         o = p[:-4] + '.o'
         r = run([CXX] + CXXFLAGS + ['-I' + out, '-c', p, '-o', o], timeout=1200)
         return p, r
     t0 = time.time()
+    def cc_prim(_):
+        r = run([CXX] + CXXFLAGS + ['-I' + out, prim_src, '-o', os.path.join(out, 'prim')], timeout=1200)
+        return prim_src, r
     with cf.ThreadPoolExecutor(NCPU) as ex:
+        fut = ex.submit(cc_prim, None)
         res = list(ex.map(cc, files))
+        res.append(fut.result())
     bad = [(p, r) for p, r in res if r.returncode != 0]
     if bad:
         p, r = bad[0]
